@@ -256,4 +256,74 @@ theorem run_open (last : Nat) : ∀ (spine : Open) (t : Task) (n d : Nat), t.sc 
       simp only [closeAt]
       rw [map_kidsDone_single f t0 last _ hw1 hw2]
 
+/-! ### one task's data ending with open calls, through the whole report -/
+
+/-- time of the last record (`dflt` for an empty stream) -/
+def lastTimeOf (dflt : Nat) (rs : List Rec) : Nat := rs.foldl (fun _ r => r.time) dflt
+
+theorem stepF_lastTime (t : Task) (r : Rec) : (stepF t r).1.lastTime = r.time := by
+  unfold stepF
+  simp only
+  split
+  · split <;> rfl
+  · split <;> rfl
+
+theorem runT_lastTime : ∀ (rs : List Rec) (t : Task), (runT t rs).1.lastTime = lastTimeOf t.lastTime rs
+  | [], t => rfl
+  | r :: rs, t => by
+    simp only [runT, lastTimeOf, List.foldl_cons]
+    rw [runT_lastTime rs, stepF_lastTime]; rfl
+
+theorem finishF_eq (t : Task) (n : Nat) (h : t.sc = n) :
+    finishF t = (remFrom t.lastTime 0 n t.stk).2 := by
+  unfold finishF
+  by_cases h0 : n = 0
+  · subst h0; simp [h, remFrom]
+  · have : ¬ (t.sc = 0) := by omega
+    rw [if_neg this]
+    simp only [h, Int.toNat_natCast, remLoop_eq]
+
+/-- a single task: the node table is the empty one updated with what the stream and then
+    `add_remaining_fstack` produce -/
+theorem report_single (m : Nat) (rs : List Rec) :
+    reportNodes false m [rs] =
+      Nodes.upds (fun _ => {}) ((runT (Task.init m) rs).2 ++ finishF (runT (Task.init m) rs).1) := by
+  obtain ⟨hproj, hlt⟩ := mergeAll_proj [rs]
+  obtain ⟨us, hn, hp⟩ := run_nodes 1 (mergeAll [rs]) (St.init m) (by simpa using hlt)
+  have h0 : proj 0 (mergeAll [rs]) = rs := by simpa using hproj 0
+  have htask : (run false (St.init m) (mergeAll [rs])).tasks 0 = (runT (Task.init m) rs).1 := by
+    rw [run_tasks, h0]; rfl
+  have hblocks : blocks 1 (St.init m).tasks (mergeAll [rs]) = (runT (Task.init m) rs).2 := by
+    simp [blocks, List.range_succ, h0, St.init]
+  unfold reportNodes
+  simp only [Bool.false_eq_true, if_false, finish, List.length_singleton, List.range_succ, List.range_zero,
+    List.nil_append, List.foldl_cons, List.foldl_nil, htask]
+  have hus : (St.init m).nodes.upds us = (St.init m).nodes.upds (runT (Task.init m) rs).2 :=
+    Nodes.upds_perm _ (hblocks ▸ hp)
+  rw [hn, hus, Nodes.upds_append]
+  rfl
+
+theorem report_open (m : Nat) (done : Calls) (spine : Open)
+    (hd : done.height ≤ m) (hs : openHeight spine ≤ m)
+    (hw : wtL (closeAt (lastTimeOf 0 (evCalls 0 done ++ evOpen 0 spine)) spine)) :
+    reportNodes false m [evCalls 0 done ++ evOpen 0 spine] =
+      Nodes.upds (fun _ => {})
+        (updsL [] (capp done (closeAt (lastTimeOf 0 (evCalls 0 done ++ evOpen 0 spine)) spine))) := by
+  generalize hlast : lastTimeOf 0 (evCalls 0 done ++ evOpen 0 spine) = last at hw
+  obtain ⟨dU, dP⟩ := run_calls done (Task.init m) 0 0 rfl rfl (Or.inr ⟨rfl, rfl⟩) (by simp [Task.init]; exact hd)
+  generalize hr1 : runT (Task.init m) (evCalls 0 done) = r1 at dU dP
+  have hlen : r1.1.stk.length = m := by rw [dP.len]; simp [Task.init]
+  obtain ⟨oU, oS, _, _⟩ := run_open last spine r1.1 0 0 dP.sc dP.lost dP.fset (by rw [hlen]; omega) hw
+  have hrun : runT (Task.init m) (evCalls 0 done ++ evOpen 0 spine) =
+      ((runT r1.1 (evOpen 0 spine)).1, r1.2 ++ (runT r1.1 (evOpen 0 spine)).2) := by
+    rw [runT_append, hr1]
+  have hlt : (runT r1.1 (evOpen 0 spine)).1.lastTime = last := by
+    have := runT_lastTime (evCalls 0 done ++ evOpen 0 spine) (Task.init m)
+    rw [hrun] at this
+    rw [this]; exact hlast
+  rw [report_single, hrun]
+  simp only
+  rw [finishF_eq _ spine.length (by rw [oS]; simp), hlt, List.append_assoc, oU, dU, updsL_capp]
+  simp [ctxOf]
+
 end Uft.Report
